@@ -16,6 +16,8 @@ pub(crate) struct Html5Serializer<'a, N: Normalizer> {
     html5_elements: &'a Html5Elements,
     cdata_section_names: &'a [NameId],
     fullname_serializer: FullnameSerializer<'a>,
+    // elements for which we declared a default namespace ourselves
+    default_namespace_added: Vec<Node>,
     normalizer: N,
 }
 
@@ -64,6 +66,7 @@ impl<'a, N: Normalizer> Html5Serializer<'a, N> {
             html5_elements,
             cdata_section_names,
             fullname_serializer,
+            default_namespace_added: Vec::new(),
             normalizer,
         }
     }
@@ -139,8 +142,10 @@ impl<'a, N: Normalizer> Html5Serializer<'a, N> {
                     .must_be_serialized_unprefixed(namespace_id)
                     && !self.fullname_serializer.has_empty_prefix(namespace_id)
                 {
-                    // add the empty prefix for the namespace
+                    // add the empty prefix for the namespace, for the
+                    // duration of this element
                     self.fullname_serializer.add_empty_prefix(namespace_id);
+                    self.default_namespace_added.push(node);
                     // we also need to serialize the additional xmlns
                     let local_name = self.xot.local_name_str(element.name_id);
                     let namespace_uri = self.xot.namespace_str(namespace_id);
@@ -182,6 +187,10 @@ impl<'a, N: Normalizer> Html5Serializer<'a, N> {
                         ),
                     }
                 };
+                if self.default_namespace_added.last() == Some(&node) {
+                    self.default_namespace_added.pop();
+                    self.fullname_serializer.pop(true);
+                }
                 self.fullname_serializer
                     .pop(self.xot.has_namespace_declarations(node));
                 r
